@@ -21,6 +21,7 @@ import (
 	"sort"
 	"strings"
 
+	"github.com/Eyevinn/mp4ff/bits"
 	"github.com/Eyevinn/mp4ff/mp4"
 
 	genfrag "verifharness/gen/frag"
@@ -147,6 +148,35 @@ func tables(c *runner.Ctx) {
 	}
 	if len(rd) > 0 {
 		c.Nontrivial(runner.HashStr(append([]string{"tables"}, rd...)...))
+	}
+	// the documented registry mutators must keep the two tables in step (this case runs alone in its
+	// worker, and the entry is put back before it ends)
+	pasp := []byte{0, 0, 0, 16, 'p', 'a', 's', 'p', 0, 0, 0, 4, 0, 0, 0, 3}
+	kindOf := func() (string, string) {
+		b1, e1 := mp4.DecodeBox(0, bytes.NewReader(pasp))
+		b2, e2 := mp4.DecodeBoxSR(0, bits.NewFixedSliceReader(pasp))
+		if e1 != nil || e2 != nil {
+			return fmt.Sprintf("error %v", e1), fmt.Sprintf("error %v", e2)
+		}
+		return fmt.Sprintf("%T", b1), fmt.Sprintf("%T", b2)
+	}
+	if pi := c.Guard(func() {
+		mp4.RemoveBoxDecoder("pasp")
+		rd2, srd2 := mp4.VerifRegisteredBoxTypes()
+		a, b := kindOf()
+		if in(rd2, "pasp") != in(srd2, "pasp") || a != b {
+			c.Violation("dispatch-tables/RemoveBoxDecoder-leaves-tables-out-of-step", fmt.Sprintf("after RemoveBoxDecoder(\"pasp\"): reader table has it %v, slice-reader table has it %v; DecodeBox gives %s, DecodeBoxSR gives %s", in(rd2, "pasp"), in(srd2, "pasp"), a, b), detail{Clause: "c"})
+		}
+		mp4.SetBoxDecoder("pasp", mp4.DecodePasp, mp4.DecodePaspSR)
+		rd3, srd3 := mp4.VerifRegisteredBoxTypes()
+		a, b = kindOf()
+		if !in(rd3, "pasp") || !in(srd3, "pasp") || a != b || a != "*mp4.PaspBox" {
+			c.Violation("dispatch-tables/SetBoxDecoder-leaves-tables-out-of-step", fmt.Sprintf("after SetBoxDecoder(\"pasp\", ...): reader table has it %v, slice-reader table has it %v; DecodeBox gives %s, DecodeBoxSR gives %s", in(rd3, "pasp"), in(srd3, "pasp"), a, b), detail{Clause: "c"})
+		}
+		c.Count("registry_mutators_checked", 1)
+	}); pi != nil {
+		mp4.SetBoxDecoder("pasp", mp4.DecodePasp, mp4.DecodePaspSR)
+		c.Violation(runner.PanicKey("dispatch-tables/mutators", pi), "RemoveBoxDecoder/SetBoxDecoder panics: "+pi.Value, detail{Clause: "c"})
 	}
 }
 
@@ -319,6 +349,9 @@ func decoders(c *runner.Ctx, in work.Input, h *genfrag.History) {
 		if p == work.PBox || p == work.PFile {
 			delivery(c, p, x, dp, det)
 		}
+		if p == work.PFileSR || p == work.PBoxSR {
+			offsetSR(c, p, x, dp, det)
+		}
 	}
 	if canonicalAny {
 		c.Nontrivial(runner.Hash64(in.Data))
@@ -373,6 +406,52 @@ func culpritType(x []byte, err error) string {
 
 // delivery feeds the io.Reader path through readers that deliver 1 byte /
 // 1..7 bytes per Read; the result must equal the whole-buffer result.
+// offsetSR decodes x through a slice reader whose buffer holds other bytes in
+// front of x which the caller has already consumed: positions are relative to
+// where the reader stood when the decoder was called, so the structure must
+// equal the one decoded from x alone.
+func offsetSR(c *runner.Ctx, p string, x []byte, whole *work.Dec, det detail) {
+	if len(x) > 64<<10 || !c.Rand.Chance(1, 3) {
+		return
+	}
+	k := c.Rand.PickInt(1, 3, 8, 13, 4096)
+	buf := make([]byte, k+len(x))
+	for i := 0; i < k; i++ {
+		buf[i] = byte(0xC0 + i%7)
+	}
+	copy(buf[k:], x)
+	var obj interface{}
+	var err error
+	pi := c.Guard(func() {
+		sr := bits.NewFixedSliceReader(buf)
+		sr.SkipBytes(k)
+		if p == work.PFileSR {
+			var f *mp4.File
+			f, err = mp4.DecodeFileSR(sr)
+			obj = f
+		} else {
+			var b mp4.Box
+			b, err = mp4.DecodeBoxSR(0, sr)
+			obj = b
+		}
+	})
+	c.Evals(1)
+	c.Count("slice_reader_not_at_zero_compared", 1)
+	if pi != nil {
+		c.Count("panics_left_to_C04", 1)
+		return
+	}
+	if err != nil {
+		c.Violation(fmt.Sprintf("offset-slicereader/%s/rejects/%s", p, culpritType(x, err)),
+			fmt.Sprintf("%s accepts the %d bytes from a slice reader at position 0 but rejects them from one standing at position %d of a larger buffer: %v\n%s", p, len(x), k, err, det.Desc), det)
+		return
+	}
+	if diffs := treecmp.Diff(whole.Obj(), obj, treecmp.Options{}); len(diffs) > 0 {
+		c.Violation(fmt.Sprintf("offset-slicereader/%s/differ/%s", p, treecmp.KeyPath(diffs)),
+			fmt.Sprintf("%s gives a different structure when the slice reader stands at position %d of a larger buffer: %s\n%s", p, k, strings.Join(diffs, "; "), det.Desc), det)
+	}
+}
+
 func delivery(c *runner.Ctx, p string, x []byte, whole *work.Dec, det detail) {
 	if len(x) > 64<<10 && !c.Rand.Chance(1, 8) {
 		return
